@@ -347,6 +347,15 @@ class World:
         self.sinkx2.entries.clear()
         self.sink.exec = None
         a = self.action(act)
+        # a policy's pre-allocated buffer: the same array object is overwritten in place and submitted at every step (what
+        # an action denotes is its content when it is submitted, not the identity of the object carrying it)
+        if isinstance(a, np.ndarray) and a.dtype == float:
+            buf = getattr(self, "_buf", None)
+            if buf is not None and buf.shape == a.shape:
+                buf[...] = a
+                a = buf
+            else:
+                self._buf = a
         try:
             r = self.env.step(a)
             return "ok", r
